@@ -62,9 +62,16 @@ class PandocParser:
         self, section_name: str, card: Card, section_trace: list[str]
     ) -> Section:
         # Add a new section to the card, which can be a subsection, and return
-        # it.
-        section_name = "/".join(section_trace)
-        cur_section = card._add_single(section_name, "")
+        # it. The section is addressed by the list of titles leading to it and
+        # not by a "/"-joined name, so that a title containing "/" is neither
+        # split into several sections nor stripped.
+        *parent_names, title = section_trace
+        siblings = card._select(parent_names)
+        cur_section = Section(title=title, content="")
+        if title in siblings:
+            # entry exists, preserve its subsections
+            cur_section.subsections = siblings[title].subsections
+        siblings[title] = cur_section
         return cur_section
 
     def _add_content(self, content: str, section: Section | None) -> None:
